@@ -26,8 +26,9 @@ Fixpoint nodup_str (l : list str) : bool :=
   match l with [] => true | a :: r => negb (mem_str a r) && nodup_str r end.
 
 Definition is_ptr (t : ty) : bool := match t with TPtr _ => true | _ => false end.
-(* what may sit behind a pointer: a nil *struct / *map makes the loader panic, **T is unsupported *)
-Definition ptr_ok (t : ty) : bool := match t with TPtr _ | TStruct _ | TMap _ | TBad => false | _ => true end.
+(* what may sit behind a pointer: a nil *struct / *map / *OptionalPath makes the loader panic as soon as a
+   variable below it exists, **T is unsupported *)
+Definition ptr_ok (t : ty) : bool := match t with TPtr _ | TStruct _ | TMap _ | THook _ | TBad => false | _ => true end.
 
 Fixpoint wf_ty (t : ty) : bool :=
   match t with
